@@ -7,11 +7,12 @@ cp "$wt/out/patch.diff" "$d/patch.diff"
 cp "$wt/out/seed_demo.rs" "$d/seed_demo.rs"
 [ -f "$wt/out/README.md" ] && cp "$wt/out/README.md" "$d/README.agent.md"
 [ -f "$wt/out/verify.log" ] && cp "$wt/out/verify.log" "$d/verify.log"
-base=$(git -C /repo rev-parse HEAD)
+base=$(git -C "$wt" rev-parse HEAD)
 checks=$(printf '%s\n' "$@" | jq -R . | jq -s .)
-jq -n --arg p "$prop" --arg n "$needs" --arg b "$base" --arg name "$name" --argjson c "$checks" '{
+note="${SEED_ROUND_NOTE:-second round, asked to avoid the file and function of the first seed}"
+jq -n --arg note "$note" --arg p "$prop" --arg n "$needs" --arg b "$base" --arg name "$name" --argjson c "$checks" '{
  breaks_property:$p,
- origin:"written by an independent sub-agent that saw only the property text and a scratch worktree of /repo (nothing from /verif); second round, asked to avoid the file and function of the first seed",
+ origin:("written by an independent sub-agent that saw only the property text and a scratch worktree of /repo (nothing from /verif); "+$note),
  needs_to_manifest:$n,
  files:{patch:("patch.diff (apply with: git -C /repo apply /verif/seeded/"+$name+"/patch.diff ; undo with: git -C /repo checkout -- .)"),demonstration:"seed_demo.rs (an integration test for test-libz-rs-sys/tests/)",agent_notes:"README.agent.md",confirmation_log:"verify.log"},
  confirmed_by_me:{how:"tools/verify_seed.sh in the scratch worktree: demonstration with the change fails, without the change passes, pinned suite with the change (demo moved away) 353/353 passed",pinned_suite_with_change:"353 passed",demo_with_change_fails:true,demo_without_change_passes:true},
